@@ -201,5 +201,5 @@ def campaign(col, tier, seed, shard, nshards):
         col.add_sample({"kind": "lockstep", "seq": "1b5b31", "enc": "utf-8", "full": True}, ["lockstep"])
     col.exhaustive["esc_subtree_lockstep"] = True
     col.exhaustive["utf8_valid_prefix_tree_lockstep"] = tier == "thorough"
-    n = 4000 if tier == "quick" else 160000
+    n = 4000 if tier == "quick" else 1600000
     hyp_campaign(col, strategy(), run_case, max(n // nshards, 100), seed * 100 + shard)
